@@ -291,6 +291,32 @@ def run(rep):
                             f'call on the "new" edge) nor the single recursive call of its activation; nearest candidate '
                             f'guard: {desc}. On a DAG (diamond / chain of value-returning helpers / nested structs) this '
                             f'multiplies the work with every level.')
+        # the guard set is one object for the whole walk: every recursive call hands on the set it received.  A clone or a fresh set passed to
+        # a recursive call (`let mut other = visited.clone(); walk(.., &mut other)`) forgets what the sibling calls visit: shared nodes are
+        # expanded once per such branch - exponential along a chain, although every call is still "guarded"
+        for fn in sorted(comp):
+            body = mir.bodies[fn]
+            nth = {}
+            for bb, t in body.calls():
+                callee = t['callee'] or t['raw']
+                if callee not in cs:
+                    continue
+                nth[callee] = nth.get(callee, 0) + 1
+                cb = mir.bodies[callee]
+                for p_ in range(1, cb.arg_count + 1):
+                    ty = cb.locals[p_]
+                    if not (ty.startswith('&mut ') and any(s_ in ty.split('<')[0] for s_ in ('collections::HashSet', 'collections::BTreeSet', 'collections::HashMap', 'collections::BTreeMap'))
+                            and 'naga::Handle<' in ty):
+                        continue
+                    if p_ - 1 >= len(t['args']) or op_place(t['args'][p_ - 1]) is None:
+                        continue
+                    root = canon(body, op_place(t['args'][p_ - 1]))
+                    own = 1 <= root[0] <= body.arg_count
+                    # a closure of the component captures the creator's set: the upvar struct is its parameter #1
+                    rep.check(own, 'C20.guard-set-threaded', f'guard-set:{fn}->{callee}#{nth[callee]}:{p_}', body.where(bb),
+                              f'the handle-keyed set handed to the recursive call {fn} -> {callee} (parameter #{p_}, {ty}) is not the set this activation received '
+                              f'(it is local _{root[0]}: a clone or a fresh set): nodes visited by sibling calls are forgotten and re-expanded - the walk multiplies with depth',
+                              ok_detail='the recursive call hands on the visited set it received')
         # nothing in the component may shrink a guard set
         for fn in sorted(comp):
             body = mir.bodies[fn]
